@@ -34,8 +34,32 @@ def load_prop(pid):
     return importlib.import_module(f"harness.props.{pid.lower()}")
 
 
+OWNED_TABLES = {"C02": ("LexerRules.lean",), "C11": ("Effects.lean",)}
+
+
+def restore_pinned_tables(skip=()):
+    pin = os.path.join(common.ROOT, "harness", "pinned_tables")
+    gen = os.path.join(common.LEAN, "JaqalModel", "Generated")
+    for name in sorted(os.listdir(pin)):
+        if name in skip:
+            continue
+        want = open(os.path.join(pin, name), encoding="utf-8").read()
+        path = os.path.join(gen, name)
+        try:
+            have = open(path, encoding="utf-8").read()
+        except OSError:
+            have = None
+        if have != want:
+            with open(path, "w", encoding="utf-8") as f:
+                f.write(want)
+
+
 def lean_stage(prop, ctx, res):
     """Regenerate tables, build, audit, elaborate the property's theorem files."""
+    # every check is self-contained: the tables another property's check regenerates from the source (C02: token rules,
+    # C11: mutation sites) are put back to their pinned content first, so that what an earlier run left behind — possibly
+    # on another state of the source — cannot break this build; the owner regenerates its table from the current source
+    restore_pinned_tables(skip=OWNED_TABLES.get(res.pid, ()))
     gen = getattr(prop, "generate_tables", None)
     if gen:
         try:
